@@ -28,6 +28,7 @@ struct Obj {
 }
 
 pub struct World {
+    spread: f32,
     scenes: Vec<(u64, Vec<Obj>)>,
     rng: StdRng,
     miss: f64,
@@ -35,7 +36,7 @@ pub struct World {
 }
 
 impl World {
-    pub fn new(seed: u64, scenes: &[u64], nobj: usize, rotated: bool) -> World {
+    pub fn new(seed: u64, scenes: &[u64], nobj: usize, rotated: bool, spread: f32) -> World {
         let mut rng = StdRng::seed_from_u64(seed);
         let mut sc = vec![];
         for s in scenes {
@@ -43,7 +44,7 @@ impl World {
             for k in 0..nobj {
                 // objects on a ring heading towards the centre region so that they approach, cross and separate
                 let a = rng.gen_range(0.0..std::f32::consts::TAU);
-                let r = rng.gen_range(60.0..160.0);
+                let r = rng.gen_range(0.3 * spread..spread);
                 let (cx, cy) = (400.0, 400.0);
                 let x = cx + r * a.cos();
                 let y = cy + r * a.sin();
@@ -64,12 +65,13 @@ impl World {
             }
             sc.push((*s, objs));
         }
-        World { scenes: sc, rng, miss: 0.15, jitter: 1.0 }
+        World { spread, scenes: sc, rng, miss: 0.15, jitter: 1.0 }
     }
 
     /// advances the objects of one scene and returns the detections (shuffled, with misses)
     pub fn step(&mut self, scene: u64) -> Vec<Det> {
         let jitter = self.jitter;
+        let spread = self.spread;
         let miss = self.miss;
         let idx = self.scenes.iter().position(|s| s.0 == scene).unwrap();
         let mut dets = vec![];
@@ -85,10 +87,10 @@ impl World {
             let o = &mut self.scenes[idx].1[k];
             o.x += o.vx;
             o.y += o.vy;
-            if o.x < 100.0 || o.x > 700.0 {
+            if o.x < 400.0 - 1.5 * spread || o.x > 400.0 + 1.5 * spread {
                 o.vx = -o.vx;
             }
-            if o.y < 100.0 || o.y > 700.0 {
+            if o.y < 400.0 - 1.5 * spread || o.y > 400.0 + 1.5 * spread {
                 o.vy = -o.vy;
             }
             if m {
@@ -264,11 +266,43 @@ pub enum Call {
     SetAw(usize),
 }
 
-pub fn history(seed: u64, steps: usize, scenes: &[u64], nobj: usize, rotated: bool, lifecycle: bool) -> Vec<Call> {
-    let mut world = World::new(seed, scenes, nobj, rotated);
+pub fn history(seed: u64, steps: usize, scenes: &[u64], nobj: usize, rotated: bool, lifecycle: bool, spread: f32, crafted: bool) -> Vec<Call> {
+    let mut world = World::new(seed, scenes, nobj, rotated, spread);
     let mut rng = StdRng::seed_from_u64(seed ^ 0x5eed);
     let mut calls = vec![];
+    let mut crafted_k = 0usize;
     for _ in 0..steps {
+        // a dedicated scene replays a crafted contest in which the greedy choice is not optimal:
+        // two half-overlapping stationary tracks T1, T2; then detection A between them (best with T1,
+        // good with T2) and detection B on the far side of T1 (acceptable with T1 only)
+        if crafted && rng.gen_bool(0.3) {
+            let cycle = crafted_k / 5;
+            let phase = crafted_k % 5;
+            crafted_k += 1;
+            let bx = 200.0 + 400.0 * (cycle % 3) as f32;
+            let by = 200.0 + 300.0 * ((cycle / 3) % 3) as f32;
+            let (w, h) = (60.0f32, 90.0f32);
+            let mk = |x: f32, cid: i64| Det {
+                bbox: Universal2DBox::new_with_confidence(x, by, None, w / h, h, 1.0),
+                cid: Some(cid),
+                feature: None,
+                quality: None,
+            };
+            let j: f32 = rng.gen_range(-0.02..0.02);
+            let dets = match phase {
+                0 | 1 | 2 => vec![mk(bx, 9001), mk(bx + 0.5 * w, 9002)],
+                3 => {
+                    let mut v = vec![mk(bx + (0.2 + j) * w, 9003), mk(bx - (0.35 + j) * w, 9004)];
+                    if rng.gen_bool(0.5) {
+                        v.reverse();
+                    }
+                    v
+                }
+                _ => vec![],
+            };
+            calls.push(Call::Predict(99, dets));
+            continue;
+        }
         let s = scenes[rng.gen_range(0..scenes.len())];
         let r: f64 = rng.gen();
         if !lifecycle || r < 0.78 {
@@ -335,7 +369,7 @@ pub fn main(opts: &Opts) {
     let steps = opts.usize("steps", 120);
     let scenes: Vec<u64> = opts.str("scenes", "0,7").split(',').map(|x| x.parse().unwrap()).collect();
     let nobj = opts.usize("objects", 3);
-    let calls = history(seed, steps, &scenes, nobj, opts.get("rotated").is_some(), opts.get("no-lifecycle").is_none());
+    let calls = history(seed, steps, &scenes, nobj, opts.get("rotated").is_some(), opts.get("no-lifecycle").is_none(), opts.f64("spread", 160.0) as f32, opts.get("crafted").is_some());
     let only = opts.get("only-scene").map(|s| s.parse::<u64>().unwrap());
     let delay_ctl = if opts.u64("delay-us", 0) > 0 {
         let c = crate::gates::Ctl::install();
